@@ -74,7 +74,7 @@ def special_exprs(g: gen.Gen):
 
 def run(rep: vk.Report):
     vk.proof_stage(rep, "C03", extra_trusted=["Interval library enclosure (SemI.evalI_correct) for the numeric channel"])
-    n = 350 if rep.tier == "quick" else 8000
+    n = 150 if rep.tier == "quick" else 8000
     rng = common.rng_for(rep.seed, "C03")
     import optyx.core.autodiff as AD
     import optyx.core.compiler as C
@@ -85,32 +85,33 @@ def run(rep: vk.Report):
     unsupported = 0
     errors = {}
     fixed = common.vectorised_worklist()
-    for i in range(n + len(fixed)):
-        g = gen.Gen(random.Random(rng.random()), profile=rng.choice(["poly", "smooth", "smooth", "all"]))
-        if i < len(fixed):
-            es, V = [fixed[i][0]], list(fixed[i][1])
-        else:
+    def sources():
+        for f in fixed:
+            yield None, [f[0]], list(f[1])
+        for g, e in common.corpus(rng, rep.tier, 0, errors=errors):
+            yield g, [e], None
+        for i in range(n):
+            g = gen.Gen(random.Random(rng.random()), profile=rng.choice(["poly", "smooth", "smooth", "all"]))
             try:
                 es = special_exprs(g) if rng.random() < 0.6 else [g.expr(rng.choice([2, 3])) for _ in range(rng.randint(1, 3))]
             except Exception as ex:
                 errors["gen:" + type(ex).__name__] = errors.get("gen:" + type(ex).__name__, 0) + 1
                 continue
+            yield g, es, None
+
+    for g, es, V in sources():
+        if V is None:
             allv = {}
             for e in es:
                 for v in e.get_variables():
                     allv[v.name] = v
-            vs = [allv[k] for k in sorted(allv)]
-            # natural problem order for vector elements so that the full fast path can fire
-            from optyx.problem import _variable_order_key
-            vs.sort(key=_variable_order_key)
+            vs = list(allv.values())
             mode = rng.random()
-            V = list(vs)
-            if mode < 0.3:
-                rng.shuffle(V)
-            elif mode < 0.55:
-                V = V + [Variable(f"extra{j}") for j in range(rng.randint(1, 2))]
-                if rng.random() < 0.5:
-                    rng.shuffle(V)
+            if mode < 0.45:
+                # natural problem order for vector elements so that the full fast paths can fire
+                V = sorted(vs, key=lambda v: common.natkey(v.name))
+            else:
+                V = common.orders(vs, [Variable(f"extra{j}") for j in range(rng.randint(0, 2))], rng)
         if not V:
             continue
         S = ser.Ser()
